@@ -13,6 +13,16 @@ from ..runner import Result, Violation
 PROP = "C15"
 
 NAMES = ["zzVerifUnknown", "x-unknown", "_", "Kind", ""]
+
+
+def _deep(n=600):
+    v = 1
+    for _ in range(n):
+        v = [v]
+    return v
+
+
+DEEP_PAYLOAD = _deep()      # an unknown property's payload is never looked at: its depth cannot matter
 PAYLOADS = [None, 1, "s", [], {"a": [1]}]
 
 
@@ -123,14 +133,17 @@ def resembling_names(props):
     from ..mm import snake, upper_camel
     declared = {p["name"] for p in props}
     out = []
-    for p in props:
-        n = p["name"]
-        for cand in (snake(n), upper_camel(n), n + "_", "_" + n, n.upper(), n.lower()):
+    # by kind across ALL declared names (the Python attribute spelling of every multi-word / keyword name first:
+    # a hook that also accepts attribute names as aliases reads exactly those), then the other look-alikes
+    names_all = [p["name"] for p in props]
+    for kind in (snake, lambda n: n + "_", upper_camel, lambda n: "_" + n, str.upper, str.lower):
+        for n in names_all:
+            cand = kind(n)
             if cand not in declared and cand not in out:
                 out.append(cand)
-        if len(out) >= 6:
+        if len(out) >= 12:
             break
-    out = out[:6]
+    out = out[:12]
     # fragments and concatenations of declared names (a key test written as a substring / prefix test)
     names = [p["name"] for p in props]
     frag = []
@@ -142,7 +155,7 @@ def resembling_names(props):
     for cand in frag:
         if cand and cand not in declared and cand not in out:
             out.append(cand)
-    return out[:14]
+    return out[:20]
 
 
 _SIBLINGS = {}
@@ -197,7 +210,7 @@ def insert(j, path, name, payload):
     for step in path:
         cur[step] = cp(cur[step])
         cur = cur[step]
-    cur[name] = copy.deepcopy(payload)
+    cur[name] = payload if payload is DEEP_PAYLOAD else copy.deepcopy(payload)
     return j2
 
 
@@ -272,6 +285,7 @@ def judge(mm, name, j, opts):
             for rn in sibling_fragments(mm, props):
                 if rn not in cur:
                     node_combos.append((rn, "s"))
+        node_combos.append((NAMES[0], DEEP_PAYLOAD))
         for uname, payload in node_combos:
             n += 1
             st, obs, jp = run_one(mm, name, j, path, uname, payload, base=(o, u))
@@ -281,9 +295,10 @@ def judge(mm, name, j, opts):
                     continue            # enough exemplars from this one value; the verdict is already "affected"
                 # site: class of the node = innermost declaration on the path is not tracked; use root + key path
                 site = name + "".join("." + s if isinstance(s, str) else "[]" for s in path)
-                vs.append(Violation(PROP, st, site, "unknown property %r added at %s: %s %s" % (uname, site, st, str(obs)[:120]),
-                                    {"engine": "VSE", "root": name, "input": j, "path": list(path), "name": uname, "payload": payload,
-                                     "observed": obs}, node=jp, extra=obs[0] if st == "raise" else ""))
+                deep = payload is DEEP_PAYLOAD
+                vs.append(Violation(PROP, st, site, "unknown property %r%s added at %s: %s %s" % (uname, " (payload: 600 nested arrays)" if deep else "", site, st, str(obs)[:120]),
+                                    {"engine": "VSE", "root": name, "input": j, "path": list(path), "name": uname, "payload": "<deep-600>" if deep else payload,
+                                     "observed": obs}, node=None if deep else jp, extra=obs[0] if st == "raise" else ""))
     return n, "ignored" if not vs else "affected", vs
 
 
@@ -302,7 +317,7 @@ def _site_task(args):
     for alt in ort["items"]:
         if is_null_type(alt):
             continue
-        for slabel, v in [x for x in c14.shapes(mm, vse, alt, k, site_or=ort) if x[0] not in ("long", "keyname") and "/" not in x[0]]:
+        for slabel, v in [x for x in c14.shapes(mm, vse, alt, k, site_or=ort) if x[0] not in ("long", "keyname", "lookalike") and "/" not in x[0]]:
             if slabel.startswith("max-") or (slabel == "pair" and not full):
                 continue
             for rname, rt, rpath in roots:
@@ -354,7 +369,7 @@ def run(ctx):
 def replay(ctx, doc):
     mm = get_mm()
     try:
-        st, obs, _ = run_one(mm, doc["root"], doc["input"], tuple(doc["path"]), doc["name"], doc["payload"])
+        st, obs, _ = run_one(mm, doc["root"], doc["input"], tuple(doc["path"]), doc["name"], DEEP_PAYLOAD if doc["payload"] == "<deep-600>" else doc["payload"])
     except Exception as e:  # noqa: BLE001
         return "base value fails: %r" % (e,)
     return None if st == "ok" else "%s %s" % (st, str(obs)[:200])
